@@ -168,6 +168,23 @@ func c13Run(c *core.Ctx) {
 			return true
 		})
 	}
+	// (A) tokens that span lines, followed on their last line by ( [ . or an operator
+	for _, lit := range []string{"`l1\nl2`", "`\n`", "'a\\\nb'", "`a\n\n  b`"} {
+		for _, t := range []string{"let c = %s[0]", "x = %s.length", "f(%s)[0]", "x = %s\n[0]", "x = %s + 1\n(a)", "g(%s)(b)", "x = [%s][0](1)", "x = a(%s, %s)\n(b)", "if (a) x = %s[0]\nelse y = %s", "x = %s\n(a)", "return %s[0]"} {
+			if !c.Next() || c.Tick() {
+				continue
+			}
+			src := strings.ReplaceAll(t, "%s", lit)
+			c.Cur(src)
+			c.Inc("inputs")
+			c.Inc("multiline_token_texts")
+			kd, d, acc := c13Modes(src)
+			if acc {
+				c.Inc("accepted_programs")
+			}
+			viol("A", kd, d, src, "", 30)
+		}
+	}
 	// (A) scale family
 	for i, sp := range gen.Scale(c.Thorough()) {
 		if !c.Mine(int64(i)) || c.Tick() {
